@@ -16,13 +16,19 @@ for f in ("raw.spec", "map.spec", "set.spec"):
                 if gh.mandatory or gh.where in ("at-start", "before-loop", "loop-start"):
                     continue   # mandatory anchors end the run when lost; positional anchors cannot be lost by editing a statement
                 hints.append((gh.name, key))
+closures = []
+for f in ("raw.spec", "map.spec", "set.spec"):
+    for fs in specfile.parse(os.path.join(VERIF, "contracts", f)):
+        for key, fn in fs.fns.items():
+            for c in fn.closures:
+                closures.append(("closure:%s#%d" % (key, c.ordinal), key, "%s#%d" % (key, c.ordinal)))
 out = {}
 os.makedirs(os.path.join(VERIF, ".work"), exist_ok=True)
-for name, key in hints:
+for name, key, opt in [(n, k, ["--skip-ghost", n]) for n, k in hints] + [(n, k, ["--skip-closure", o]) for n, k, o in closures]:
     wd = tempfile.mkdtemp(prefix="hint-", dir=os.path.join(VERIF, ".work"))
     try:
         gen = os.path.join(wd, "gen")
-        r = subprocess.run([sys.executable, os.path.join(HERE, "splice.py"), "--repo", "/repo", "--out", gen, "--skip-ghost", name],
+        r = subprocess.run([sys.executable, os.path.join(HERE, "splice.py"), "--repo", "/repo", "--out", gen] + opt,
                            stdout=subprocess.PIPE, stderr=subprocess.STDOUT, text=True)
         if r.returncode != 0:
             out[name] = {"fn": key, "serves": None, "note": "extraction failed without the hint: " + r.stdout[-200:]}
